@@ -216,7 +216,8 @@ def check_identity(cfg, ex, where):
         if mt.get() - lt.get() != total:
             raise Violation(f"{PID}/efficiency-after-resume", f"{where}: sum(importance_values)={total} but tracked "
                             f"marginal loss - model loss = {mt.get() - lt.get()} (C01 lost after a failed call)", {})
-    elif not sc.close(ex.explained_loss, F(total), 8):
+    elif abs(F(float(ex.explained_loss)) - F(total)) > 8 * F(2.220446049250313e-16) * max(
+            1, abs(F(float(ex.marginal_loss))) + abs(F(float(ex.model_loss)))):
         raise Violation(f"{PID}/efficiency-after-resume", f"{where}: sum(importance_values)={total} but "
                         f"explained_loss={ex.explained_loss!r}", {})
 
